@@ -27,13 +27,19 @@ RULE = ("cases = glob (pattern, name) pairs over {a,b,*,?,/,A,.} (exhaustive up 
         "lines / comments / files from the documented grammar plus a malformed stream; gate runs (suppression lists x finding "
         "sequences x settings). non-trivial = the pattern/suppression has a wildcard or a location restriction and the case is not "
         "rejected at parse time")
-EXPLANATION = ("Lean: matchglob's explicit-stack machine terminates and equals the documented glob language on every pattern whose `*` "
-               "are followed by a literal/end/only `*` (exact hypothesis; a**b vs axb proved to fail: F8), the repaired algorithm on "
-               "every pattern; Suppression::isSuppressed = documented rules for every suppression/finding/file matcher; the report "
-               "gate reports exactly the unsuppressed findings for all lists (unbounded), nofail entries never hide; parseLine∘toString "
-               "= id on printable suppressions. Tie: in-process against the working tree for every modelled function, CLI for inline "
-               "comments (thorough). PathMatch::match / simplifyPath are parameters (C31). Outside the model: tinyxml2, simplecpp "
-               "comment tokenisation and the placement of inline comments (validated through the CLI only), plist output, polyspace.")
+EXPLANATION = ("Lean (all unbounded, for every file matcher): matchglob's explicit-stack loop terminates and decides exactly the documented glob "
+               "language (glob_eq_spec); Suppression::isSuppressed = Matched iff the manual's rules hold (for findings with an id: the manual alone, "
+               "isSuppressed_matched_iff_documented); one CppCheckLogger reports exactly the findings that pass by these rules "
+               "(reported_iff_unsuppressed / reported_texts / reported_sound), --exitcode-suppressions never hide; a parallel run = worker logger "
+               "without global suppressions followed by Executor::hasToLog reports exactly the findings no entry of the whole list matches and "
+               "equals the single-job run (reported_parallel_iff / _eq_single; safety mode excluded with a proved counterexample = C15's known "
+               "finding); text and XML suppression files written from suppressions are read back as these suppressions (parse_print, "
+               "parseFile_print, parseXml_print). Three rules on the specification side come from the code, not the manual (docs/C23.md): "
+               "workers apply only file-bound entries, unmatchedSuppression is only hidden by its literal id, a finding without id is never "
+               "hidden by an id pattern. Tie: every modelled function incl. both gates in-process against the working tree, CLI for inline "
+               "comments incl. -rp/-j2. PathMatch::match / simplifyPath are parameters (C31). Outside the model: tinyxml2, simplecpp comment "
+               "tokenisation and the placement of inline comments by addInlineSuppressions (CLI cases only), the interleaving of several workers "
+               "(C15), renderings containing {remark}, plist output, polyspace.")
 THEOREMS = [
     "Cppcheck.Glob.stack_eq_dfs", "Cppcheck.Glob.glob_eq_spec", "Cppcheck.Glob.glob_eq_spec_fixed", "Cppcheck.Glob.glob_sound_pre",
     "Cppcheck.Glob.glob_eq_spec_partial", "Cppcheck.Glob.glob_starstar_counterexample",
@@ -48,7 +54,7 @@ THEOREMS = [
     "Cppcheck.Suppress.reported_texts_fixed", "Cppcheck.Suppress.reported_texts",
     "Cppcheck.Suppress.nofail_does_not_hide", "Cppcheck.Suppress.line_semantics",
     "Cppcheck.Suppress.addSuppression_exists_harmless", "Cppcheck.Suppress.addSuppression_block_dropped_counterexample",
-    "Cppcheck.SuppressParse.parse_print", "Cppcheck.SuppressParse.strToInt_intToDec",
+    "Cppcheck.SuppressParse.parse_print", "Cppcheck.SuppressParse.parseFile_print", "Cppcheck.SuppressParse.parseXml_print", "Cppcheck.SuppressParse.strToInt_intToDec",
 ]
 MODULES = ["Cppcheck.Props.C23"]
 
@@ -540,6 +546,13 @@ def cap_violations(res):
 
 
 def run(ctx, res):
+    res.assumptions += [
+        "PathMatch::match and Path::simplifyPath are parameters of every theorem; the model is run with the answers of the real functions (C31 owns them)",
+        "addInlineSuppressions (placement of inline comments, begin/end pairing) is not modelled: inline forms are judged through the cppcheck binary against the documented rule of the planted form",
+        "a parallel run is modelled as ONE worker logger followed by Executor::hasToLog; the order in which several workers deliver is C15's property",
+        "three rules of the specification come from the code, not the manual: workers apply only file-bound entries; unmatchedSuppression is hidden only by its literal id; a finding without id is never hidden by an id pattern",
+        "Finding.text / libReports / critical / internal are inputs of the gate model (template rendering = C26, library configuration = C30)",
+    ]
     try:
         run_all(ctx, res)
     finally:
@@ -731,7 +744,9 @@ def run_all(ctx, res):
             e, f, ln, sy, po = gen_printable(rng)
             if rng.random() < 0.7:
                 e = rng.choice(["memleak", "null*", "uninitvar", "a-b", "*", "misra-c2012-10.4"])
-            if rng.random() < 0.7:
+            if rng.random() < 0.8:
+                f = rng.choice(["a.c", "src/a.c", "/abs/a.c", "lib/x.cpp", "", "C:/x/a.c"])
+            if rng.random() < 0.85:
                 sy = ""
             if not f:
                 ln = -1
@@ -746,7 +761,7 @@ def run_all(ctx, res):
         nh = 0
         for ss, hi, mo in zip(sets, himpl, hmodel):
             t = tail_fields(mo)
-            if t.get("same") != "1":
+            if t.get("hyp") == "1" and t.get("same") != "1":
                 res.oblig("model-selfcheck:%s" % thm, False, "correspondence", "the model parser and the theorem's right-hand side differ on %s" % (ss,))
                 break
             if t.get("hyp") == "1":
